@@ -139,6 +139,23 @@ func job(sc scen, cfg vsched.Config) sdrv.Job {
 							own[o.Key] = ver
 						}
 						vsched.Note("t%d create(%s) -> %s %s", t, o.Key, cv(ver), kvh.ErrClass(err))
+					case "createc":
+						// Create with a context that an environment event may cancel at any moment: either it takes effect
+						// (nil / ErrExist) or it reports the context's error and changes nothing - atomically in both cases
+						cctx, cancel := context.WithCancel(ctx)
+						vsched.Pseudo(fmt.Sprintf("cancel-t%d-%d", t, oi), nil, func() { cancel(); vsched.Note("cancel t%d", t) })
+						i := h.Begin(kvh.HOp{Thread: t, Kind: "create", Key: o.Key, Val: val})
+						ver, err := st.Create(cctx, kvs.Record{Key: o.Key, Value: []byte(val)})
+						cancel()
+						if ec := kvh.ErrClass(err); ec == "Canceled" {
+							h.Drop(i) // refused: must have had no effect (the final read-all and the other threads' results decide)
+						} else {
+							h.End(i, "", ver, ec)
+						}
+						if err == nil {
+							own[o.Key] = ver
+						}
+						vsched.Note("t%d createc(%s) -> %s %s", t, o.Key, cv(ver), kvh.ErrClass(err))
 					case "get":
 						i := h.Begin(kvh.HOp{Thread: t, Kind: "get", Key: o.Key})
 						r, err := st.Get(ctx, o.Key)
@@ -294,6 +311,11 @@ func main() {
 		addAll("redis", 2, progsOf(full, 1), vsched.Config{P: 20, Preempt: cmdOnly, MaxSteps: 3000}, both)
 		racers := [][]POp{{alphabet[3]}, {alphabet[5]}, {alphabet[0]}, {alphabet[2]}}
 		addAll("redis", 3, racers, vsched.Config{P: 3, Preempt: cmdOnly, MaxSteps: 3000}, []bool{true})
+		// a family with scheduling points INSIDE the storage's critical sections (just before the mutex is released) and a
+		// Create whose context may be cancelled at any moment: sound also for code that polls the lock instead of queueing
+		held := vsched.Mask(vsched.KLock, vsched.KChan, vsched.KEnv, vsched.KHeld, vsched.KSleep)
+		cprogs := [][]POp{{{Kind: "createc", Key: "a"}}, {{Kind: "create", Key: "a"}}, {{Kind: "put", Key: "a"}}, {{Kind: "delete", Key: "a"}}, {{Kind: "cas", Key: "a", Ver: "v0"}}}
+		addAll("inmem", 3, cprogs, vsched.Config{P: 2, Preempt: held, MaxSteps: 3000}, both)
 		bounds["inmem"] = "2 threads x 2 ops (8-op alphabet) and 3 threads x 1 op (12-op alphabet), from empty and pre-loaded store, P<=3 with points at the mutex and at every statement executed without the mutex"
 		bounds["redis"] = "2 threads x 1 op (12-op alphabet): all command interleavings; 3 threads x 1 op over {cas(v0), delete, create, put}: P<=3"
 	} else {
